@@ -757,3 +757,93 @@ func c05r4(rc *core.RC) {
 		rc.Check(got == want, fmt.Sprintf("decoder.hexToInt[0x%02x]", b), t.Pos, "entry %d, hex value is %d", got, want)
 	}
 }
+
+// ---- C17.R4: U+2028 / U+2029 are recognised by all three of their bytes ----
+
+func c17r4(rc *core.RC) {
+	p := rc.P
+	fd := p.Func("encoder", "decodeRuneInString")
+	if fd == nil {
+		rc.Unknown("encoder.decodeRuneInString", token.NoPos, "not found")
+		return
+	}
+	rc.Touch("encoder.decodeRuneInString")
+	info := p.Info(fd)
+	// locals holding s[k]
+	byteOf := map[types.Object]int64{}
+	ast.Inspect(fd.Body, func(n ast.Node) bool {
+		if as, ok := n.(*ast.AssignStmt); ok && len(as.Lhs) == 1 && len(as.Rhs) == 1 {
+			if ix, ok := core.Unparen(as.Rhs[0]).(*ast.IndexExpr); ok {
+				if k, ok := core.ConstInt(info, ix.Index); ok {
+					if o := core.ObjOf(info, as.Lhs[0]); o != nil {
+						byteOf[o] = k
+					}
+				}
+			}
+		}
+		return true
+	})
+	want := map[string][3]int64{"lineSepState": {0xE2, 0x80, 0xA8}, "paragraphSepState": {0xE2, 0x80, 0xA9}}
+	found := 0
+	ast.Inspect(fd.Body, func(n ast.Node) bool {
+		ret, ok := n.(*ast.ReturnStmt)
+		if !ok || len(ret.Results) == 0 {
+			return true
+		}
+		c, ok := core.ObjOf(info, ret.Results[0]).(*types.Const)
+		if !ok {
+			return true
+		}
+		w, isSep := want[c.Name()]
+		if !isSep {
+			return true
+		}
+		found++
+		eq := map[int64]int64{} // byte index -> required value
+		path := core.PathTo(fd.Body, ret)
+		for i, pn := range path {
+			switch x := pn.(type) {
+			case *ast.IfStmt:
+				if i+1 < len(path) && path[i+1] == ast.Node(x.Body) {
+					for _, cj := range conjuncts(x.Cond) {
+						if be, ok := core.Unparen(cj).(*ast.BinaryExpr); ok && be.Op == token.EQL {
+							if k, ok := byteOf[core.ObjOf(info, be.X)]; ok {
+								if v, ok := core.ConstInt(info, be.Y); ok {
+									eq[k] = v
+								}
+							}
+						}
+					}
+				}
+			case *ast.CaseClause:
+				if i >= 2 {
+					if sw, ok := path[i-2].(*ast.SwitchStmt); ok && sw.Tag != nil && len(x.List) == 1 {
+						if k, ok := byteOf[core.ObjOf(info, sw.Tag)]; ok {
+							if v, ok := core.ConstInt(info, x.List[0]); ok {
+								eq[k] = v
+							}
+						}
+					}
+				}
+			}
+		}
+		key := "encoder.decodeRuneInString/return " + c.Name()
+		good := true
+		var missing []string
+		for k := int64(0); k < 3; k++ {
+			if v, ok := eq[k]; !ok || v != w[k] {
+				good = false
+				missing = append(missing, fmt.Sprintf("s[%d]==%#x", k, w[k]))
+			}
+		}
+		if good {
+			rc.OK(key, ret.Pos(), "returned only when s[0..2] == %#x %#x %#x", w[0], w[1], w[2])
+		} else {
+			rc.Bad(key, ret.Pos(), "the separator state is returned without requiring %s: other valid three-byte characters are rewritten as \\u2028/\\u2029 and do not survive a round trip", strings.Join(missing, ", "))
+		}
+		return true
+	})
+	if found < 2 {
+		rc.Unknown("encoder.decodeRuneInString/separator-returns", fd.Pos(), "expected returns of lineSepState and paragraphSepState, found %d", found)
+	}
+}
